@@ -24,6 +24,58 @@ def check(repo: Repo, rep, tier):
     from .C19 import outer_compare
 
     outer_compare(repo, rep)
+    sentinel_identity(repo, rep)
+    from .C14 import reeval_type
+
+    reeval_type(repo, rep)
+
+
+def sentinel_identity(repo: Repo, rep):
+    rep.rule(
+        "R-SENTINEL-IDENTITY",
+        "the `undefined` sentinel (no value given / nothing recorded) is recognised by identity only: every comparison with it in the package is `is` / "
+        "`is not`.  `obj == undefined` hands the question to the user's `__eq__` - a value class whose `__eq__` reads attributes of the other object "
+        "raises inside snapshot(), `mock.ANY` answers True and a defined snapshot counts as missing",
+    )
+    n = 0
+    for f in repo.pkg_funcs():
+        if f.module.rel.startswith("testing/"):
+            continue
+        for x in body_nodes(f.node):
+            if isinstance(x, ast.Compare) and len(x.ops) == 1 and any(isinstance(o, ast.Name) and o.id == "undefined" for o in [x.left] + x.comparators):
+                r_ = repo.resolve_name(f.module, "undefined")
+                if not (r_ and r_[0] == "global" and r_[1][0].rel == "_sentinels.py"):
+                    continue
+                n += 1
+                if isinstance(x.ops[0], (ast.Is, ast.IsNot)):
+                    rep.ok("R-SENTINEL-IDENTITY", f, x, f"`{norm(x)}`")
+                else:
+                    rep.violation("R-SENTINEL-IDENTITY", f, x, f"{f.qualname} tests `{norm(x)}`: the sentinel is compared through the user's `__eq__` - a value with an unguarded `__eq__` raises inside snapshot() (also in disabled / CI mode, where snapshot(x) has to be x), an object that equals everything is taken for 'no value'", construct=f"{f.qualname}:{norm(x)}")
+    rep.floor("R-SENTINEL-IDENTITY", "comparisons with the undefined sentinel", n, 10)
+
+
+def usage_error_class(repo: Repo, rep):
+    rep.rule(
+        "R-USAGE-ERROR-CLASS",
+        "the usage errors of the snapshot classes (a value that is not equal to its copy, a snapshot argument that changed) are instances of the public "
+        "`inline_snapshot.UsageError` (`_exceptions.UsageError`): every module of `_snapshot/` / `_inline_snapshot.py` that raises `UsageError` imports "
+        "that class - a second class of the same name (the unused one in _rewrite_code.py) is not caught by `pytest.raises(inline_snapshot.UsageError)`",
+    )
+    n = 0
+    for m in repo.modules.values():
+        if not (m.rel.startswith("_snapshot/") or m.rel in ("_inline_snapshot.py", "_external.py")):
+            continue
+        raises = [x for f in m.funcs.values() for x in body_nodes(f.node) if isinstance(x, ast.Raise) and x.exc is not None and "UsageError" in norm(x.exc)]
+        if not raises:
+            continue
+        n += 1
+        imp = m.imports.get("UsageError")
+        origin = str(imp[0]) if imp else ""
+        if origin.endswith("_exceptions") or origin.endswith("inline_snapshot"):
+            rep.ok("R-USAGE-ERROR-CLASS", list(m.funcs.values())[0], raises[0], f"{m.rel}: UsageError from {origin}")
+        else:
+            rep.violation("R-USAGE-ERROR-CLASS", list(m.funcs.values())[0], raises[0], f"{m.rel} raises a `UsageError` imported from `{origin or '?'}`, not the public class of `_exceptions.py`: callers that catch `inline_snapshot.UsageError` no longer see the rejection", construct=f"{m.rel}:usage-error-origin")
+    rep.floor("R-USAGE-ERROR-CLASS", "modules raising UsageError", n, 1)
 
 
 def _check(repo: Repo, rep, tier):
